@@ -226,3 +226,35 @@ def check(run, prog, tier):
     simul = any(facts.any_in_macro(n["args"][0], "CONFIG_STR") and "SIMUL_EFUN" in "".join(str(x) for x in walk(n["args"][0])) or True for b, i, n in ib.calls("stat"))
     run.ob("C17-c", "config-id-source", okc and simul, "config_id writers: %s" % cw, ib.file, ib.line, "init_binaries", what="config_id is not (only) the simul_efun file's mtime: %s" % cw)
     run.ob("C17-c", "driver-id-const", not dw, "driver_id has no writers" if not dw else "driver_id written by %s" % dw, sb.file, None, None, what="driver_id is modified at run time by %s" % dw)
+
+    # ---- C17-e every file the lexer opens for a program is recorded in the include list the binary is checked against
+    run.rule("C17-e", "add_program_file: a non-top file reaches A_INCLUDES on every path (the only bypasses are `top` set and the include block not allocated); handle_include calls add_program_file for the file it just opened", 2)
+    apf = run.need(prog.func("add_program_file"), "add_program_file")
+    run.saw(apf)
+    adds = [(b, i, n) for b, i, n in apf.calls("add_to_mem_block") if n.get("args") and facts.any_in_macro(n["args"][0], "A_INCLUDES") or (n.get("args") and "A_INCLUDES" in show(n["args"][0]))]
+    run.need(adds, "add_to_mem_block (A_INCLUDES, ..) in add_program_file")
+    ab = adds[0][0].id
+    allowed_edges = set()
+    for bid in apf.reachable():
+        c = apf.branch_cond(bid)
+        if c is None:
+            continue
+        c0, t0 = normalize_cond(c, True)
+        txt = show(c0)
+        blk = apf.blocks[bid]
+        if strip(c0).get("k") == "Ref" and strip(c0).get("n") == "top" and strip(c0).get("d") == "param":
+            # edge on which top != 0
+            allowed_edges.add((bid, blk.succ[0] if t0 else blk.succ[1]))
+        elif "A_INCLUDES" in txt and ".block" in txt.replace("->", "."):
+            allowed_edges.add((bid, blk.succ[1] if t0 else blk.succ[0]))
+    p = apf.reach_avoiding([apf.entry], lambda blk: blk.id == apf.exit, avoid_blocks=[ab], avoid_edges=allowed_edges)
+    run.ob("C17-e", "includes-recorded", p is None, "every path through add_program_file with top == 0 and an include block appends the name to A_INCLUDES" if p is None else
+           "path %s returns without recording the file in A_INCLUDES although top == 0: load_binary will not compare that file's time stamp" % (p[:8],), apf.file, adds[0][2].get("l"), "add_program_file",
+           what="add_program_file can skip the include list for a non-top file; a saved binary is then accepted although that include is newer")
+    hi = run.need(prog.func("handle_include"), "handle_include")
+    run.saw(hi)
+    opens = [(b, i, n) for b, i, n in hi.calls("inc_open")]
+    apfc = [(b, i, n) for b, i, n in hi.calls("add_program_file")]
+    okh = bool(opens) and bool(apfc) and all(const_val(n["args"][1]) == 0 for b, i, n in apfc if len(n.get("args", [])) > 1)
+    run.ob("C17-e", "include-registers", okh, "handle_include registers the opened file with add_program_file(name, 0)" if okh else "handle_include does not call add_program_file(.., 0) for the file it opened", hi.file, hi.line, "handle_include",
+           what="handle_include opens an include file without registering it in the program's include list")
